@@ -228,6 +228,13 @@ Fixpoint fans_loop (guarded_name : bool) (es : list fentry) (d : list (bytes * l
   end.
 Definition sensors_fans (guarded_name : bool) (es : list fentry) := fans_loop guarded_name es [].
 
+(* basenames = glob('hwmon*/fan*_*'); if not basenames: basenames = glob('hwmon*/device/fan*_*') :
+   fan files below device/ are looked at only when there is no direct one *)
+Definition fan_basenames (direct nested : list fentry) : list fentry :=
+  match direct with [] => nested | _ => direct end.
+Definition sensors_fans_tree (guarded_name : bool) (direct nested : list fentry) :=
+  sensors_fans guarded_name (fan_basenames direct nested).
+
 (* ------------------------------------------------------------ sensors_battery *)
 Inductive mval := MI (z : Z) | MB (b : bytes).
 
